@@ -119,6 +119,25 @@ func runDiff(c Case) *ev.Failure {
 	if !bytes.Equal(w.Bytes(), ref) {
 		return ev.Failf(sigFor(c.Msg.AVPs, "writeto-differs"), "WriteTo differs from the reference at offset %d:\n lib % x\n ref % x", firstDiff(w.Bytes(), ref), clip(w.Bytes()), clip(ref))
 	}
+	// the same message object written again after its exported header fields were edited (the T
+	// flag of a retransmission, a new hop-by-hop id on fail-over): the bytes are those of the
+	// values it holds NOW
+	m.Header.CommandFlags ^= 0x10
+	m.Header.HopByHopID ^= 0x01010101
+	want2 := append([]byte{}, ref...)
+	want2[4] ^= 0x10
+	for k := 12; k < 16; k++ {
+		want2[k] ^= 0x01
+	}
+	var w2 bytes.Buffer
+	if n, err := m.WriteTo(&w2); err != nil || int(n) != len(ref) || !bytes.Equal(w2.Bytes(), want2) {
+		return ev.Failf("second-write-differs", "the message was written, its T flag and hop-by-hop id were changed, and it was written again: WriteTo returned (%d, %v) and the image differs from the reference at offset %d:\n lib % x\n ref % x", n, err, firstDiff(w2.Bytes(), want2), clip(w2.Bytes()), clip(want2))
+	}
+	if b3, err := m.Serialize(); err != nil || !bytes.Equal(b3, want2) {
+		return ev.Failf("second-write-differs", "Serialize after the header edit differs from the reference at offset %d (err %v)", firstDiff(b3, want2), err)
+	}
+	m.Header.CommandFlags ^= 0x10
+	m.Header.HopByHopID ^= 0x01010101
 	// the bytes Serialize returned belong to the caller: serialising and writing ANOTHER message
 	// afterwards must not change them
 	other := diam.NewMessage(280, 0x80, 0, 0x0badf00d, 0x0badcafe, p)
